@@ -67,6 +67,7 @@ def instances(draw):
             "s1": draw(opt(st.sampled_from(NAMES), 4)), "k": draw(st.sampled_from(SMALL)),
             "owner": draw(opt(st.integers(1, n_own))) if n_own else None,
             "home": draw(opt(st.integers(1, n_reg))) if n_reg else None,
+            "co_owner": draw(opt(st.integers(1, n_cty))),
             "tags": sorted(set(draw(st.lists(st.integers(1, n_tag), max_size=3)))) if n_tag else [],
         })
         for _ in range(draw(st.integers(0, 3))):
